@@ -127,7 +127,14 @@ def collect():
         msg = lua_message(res)
         if not msg or not msg.startswith("N="):
             raise K.Broken(f"the sandbox probe did not run in mode {name}", json.dumps(res)[:1500])
-        dumps[name] = canonical(*parse_dump(msg))
+        parts = msg.split("\n@@\n")
+        d_load = canonical(*parse_dump(parts[0]))
+        d_val = canonical(*parse_dump(parts[-1]))
+        # the graph at load time is the one handed to Lean; the two inspections must see the same function paths
+        fl = sorted(l for i, l in d_load["labels"] if i in set(d_load["fns"]))
+        fv = sorted(l for i, l in d_val["labels"] if i in set(d_val["fns"]) and l != "validate")
+        d_load["load_vs_validate_diff"] = sorted(set(fl) ^ set(fv))
+        dumps[name] = d_load
         raw[name] = res
     return dumps
 
